@@ -412,6 +412,34 @@ func one(out *trace.W, r *rand.Rand, tid string, ntx int, stats map[string]int) 
 		co.Contracts[0].Bal = int64(20 + r.Intn(30))
 		stats["double-self-destruct-driver"]++
 	}
+	if r.Intn(2) == 0 {
+		// k2 creates a contract (CREATE2), looks at its code and calls it, then reverts the whole frame; k3 calls k2, swallows
+		// the failure and then looks at the address itself: code size, code hash, a call into it - nothing may be left there
+		rt := asm.New().ReturnWord(7).Bytes()
+		init := asm.InitCodeFor(nil, rt)
+		salt := uint64(5)
+		var salt32 [32]byte
+		salt32[31] = 5
+		ghost := crypto.CreateAddress2(kaddr(2), salt32, crypto.Keccak256(init))
+		slot := uint64(r.Intn(NSlots))
+		k2 := asm.New().Create(init, 0, &salt, &slot).
+			PushA(ghost).Op(asm.EXTCODESIZE).Op(asm.POP).
+			Call(asm.CALL, ghost, asm.CallOpts{Data: []byte{0}}).
+			Revert()
+		k3 := asm.New().Call(asm.CALL, kaddr(2), asm.CallOpts{Data: []byte{0}}).
+			PushA(ghost).Op(asm.EXTCODESIZE)
+		g.storeTop(k3)
+		k3.PushA(ghost).Op(asm.EXTCODEHASH)
+		g.storeTop(k3)
+		k3.Call(asm.CALL, ghost, asm.CallOpts{Data: []byte{0}, Store: true, StoreSlot: uint64(r.Intn(NSlots)), RetToMem: 32})
+		k3.PushU(0x200).Op(0x51) // MLOAD of what the call returned
+		g.storeTop(k3)
+		co.Contracts[2].Code = k2.Bytes()
+		co.Contracts[3].Code = k3.Bytes()
+		u.add("ghost", ghost)
+		g.targets = append(g.targets, ghost)
+		stats["reverted-creation-driver"]++
+	}
 	c := chain.New(co)
 	out.Emit(trace.M{"ev": "RefGenesis", "tid": tid, "baseFee": co.BaseFee})
 
